@@ -41,6 +41,12 @@ type stepJ struct {
 
 // scenario is a running simulation of one ExtendedDaemonSet (plus optional neighbours).
 type scenario struct {
+	// badHash: pods of this template crash-loop on every node, whenever they are (re)created — a property of
+	// the template, not a one-off event, so that a faulted run meets the same environment as the fault-free one
+	badHash string
+	// badOnce: only the FIRST pod of that template that ever shows up crash-loops (whenever it shows up); its
+	// restart count is then the only evidence of the failure. badDone: that pod has been seen.
+	badOnce, badDone bool
 	// faultLog: "verb:Kind" per global write index of the last corpus run
 	faultLog []string
 	w     *simWorld
@@ -203,6 +209,7 @@ func (s *scenario) round(finish bool) {
 		}
 	}
 	s.w.kubeletSync(s.ns, finish)
+	s.crashLoopBadTemplate()
 	for _, o := range s.others {
 		s.w.kubeletSync(o.Namespace, finish)
 	}
@@ -495,4 +502,29 @@ func (sc *scenario) converge() (rounds, quietRounds int) {
 	sc.steps = append(sc.steps, stepJ{"quiescent", "final", map[string]interface{}{"view": v, "ns": sc.ns, "eds": sc.name},
 		map[string]interface{}{"rounds": rounds, "converged": quietRounds >= 3, "maxRounds": maxRounds, "lastEdsKind": sc.lastEdsKind}, sc.w.envOps})
 	return rounds, quietRounds
+}
+
+// crashLoopBadTemplate: every live pod stamped with s.badHash is (again) not Ready with a high restart count.
+func (s *scenario) crashLoopBadTemplate() {
+	if s.badHash == "" || (s.badOnce && s.badDone) {
+		return
+	}
+	for _, p := range s.w.pods(s.ns) {
+		if p.Annotations[edsv1.MD5ExtendedDaemonSetAnnotationKey] != s.badHash || p.DeletionTimestamp != nil {
+			continue
+		}
+		if s.badOnce && s.badDone {
+			break
+		}
+		if len(p.Status.ContainerStatuses) > 0 && p.Status.ContainerStatuses[0].RestartCount >= 9 {
+			continue
+		}
+		s.badDone = true
+		s.w.podStatus(s.ns, p.Name, func(pd *corev1.Pod) {
+			pd.Status.Conditions = []corev1.PodCondition{readyCond(false, time.Now().Truncate(time.Second))}
+			pd.Status.ContainerStatuses = []corev1.ContainerStatus{{Name: "main", RestartCount: 9,
+				LastTerminationState: corev1.ContainerState{Terminated: &corev1.ContainerStateTerminated{Reason: "Error",
+					FinishedAt: metav1.NewTime(time.Now().Truncate(time.Second)), ExitCode: 1}}}}
+		})
+	}
 }
